@@ -107,7 +107,7 @@ def _run(ctx, pq):
                 "inferred, via directory, glob and merge(); trivial: a single file with no root; distinct = distinct case data")
 
     # ------------------------------------------------------------ A: analyse_paths
-    n_a = 400 if quick else 4000
+    n_a = 600 if quick else 6000
     cmds, meta = [], []
     for _ in range(n_a):
         shape, paths, root = gen_paths(rng)
@@ -133,20 +133,21 @@ def _run(ctx, pq):
         ctx.correspondence("analyse_paths ~ util.analyse_paths", case, model, impl)
         ctx.count("A.outcome", impl if isinstance(impl, str) else "ok")
         # the property itself on the real code: base is the longest common directory prefix, base + rel = path
-        if isinstance(impl, list) and case["root"] is None:
-            norm = [util.join_path(p).split("/") for p in case["paths"]]
-            want = spec_base(norm)
+        if isinstance(impl, list):
+            norm = [util.join_path(p) for p in case["paths"]]
             problems = []
-            if impl[1].split("/") != want and not (want == [] and impl[1] == ""):
-                problems.append("basepath %r, longest common directory prefix %r" % (impl[1], "/".join(want)))
-            for p, r in zip(norm, impl[2]):
-                if (impl[1].split("/") if impl[1] != "" or want else []) + r.split("/") != p and "/".join(want + r.split("/")) != "/".join(p):
-                    problems.append("basepath %r + relative %r is not %r" % (impl[1], r, "/".join(p)))
+            if case["root"] is None:
+                want = spec_base([n.split("/") for n in norm])
+                if impl[1] != "/".join(want):
+                    problems.append("basepath %r, longest common directory prefix %r" % (impl[1], "/".join(want)))
+            for n, r in zip(norm, impl[2]):
+                if not (impl[1] + "/" + r == n or (impl[1] == "" and r == n) or (r == "" and impl[1] == n)):
+                    problems.append("basepath %r + relative %r is not %r" % (impl[1], r, n))
             if problems:
-                ctx.fail({"component": "analyse_paths"}, case, "; ".join(problems[:3]))
+                ctx.fail({"component": "analyse_paths", "root": "none" if case["root"] is None else "given"}, case, "; ".join(problems[:3]))
 
     # ------------------------------------------------------------ B: datasets on disk
-    n_b = 60 if quick else 600
+    n_b = 120 if quick else 1200
     for i in range(n_b):
         confirm = i < (4 if quick else 20)
         case = gen_dataset_case(rng, confirm, i)
@@ -251,7 +252,7 @@ def check_dataset(case, root, pq, ctx=None, verbose=False):
         if shape == "subdatasets":
             df["k"] = pd.Series([["a", "b"][x % 2] for x in range(len(df))], dtype="str")
             if len(df) == 0:
-                df = _frame(dict(spec, n=1))
+                df = _frame(dict(spec, n=1), bad=(case["bad_schema"] == j))
                 df["k"] = pd.Series(["a"], dtype="str")
             write(d, df, file_scheme="hive", partition_on=["k"], compression=spec["codec"],
                   row_group_offsets=[0, 2] if spec["rgo"] else None)
@@ -321,8 +322,8 @@ def check_dataset(case, root, pq, ctx=None, verbose=False):
         if case["bad_schema"] is not None:
             return pf           # different dtypes without verification: outside the statement
         nrows = sum(len(singles[j]) for j in order)
-        if pf.count() != nrows:
-            problems.append("%s: row count %r, expected %d" % (via, pf.count(), nrows))
+        if pf.count() != nrows or int(pf.fmd.num_rows) != nrows:
+            problems.append("%s: row count %r / num_rows %r, expected %d" % (via, pf.count(), pf.fmd.num_rows, nrows))
         # first everything but the categorical column, then the categorical column too (finding C14-categorical-labels)
         for use, only_c in ((["id", "v", "s"], False), (cols, True)):
             try:
@@ -352,6 +353,9 @@ def check_dataset(case, root, pq, ctx=None, verbose=False):
     # ---- via list (default filesystem: fast path for >= 3 single files unless verify)
     pf = compare("list", lambda: ParquetFile(list(paths), verify=verify, **({"root": given_root} if given_root else {})),
                  order, base, verify=verify)
+    # ---- via a list of ParquetFile instances (fix 3306fff: a dataset instance stands for its directory)
+    compare("instances", lambda: ParquetFile([ParquetFile(p) for p in paths], verify=verify, **({"root": given_root} if given_root else {})),
+            order, base, verify=verify)
     if case["bad_schema"] is None and case["cat_mode"] != "differ":
         # ---- correspondence with the merge model, both code paths
         fs = fsspec.filesystem("file")
